@@ -49,7 +49,7 @@ PROFILES = {
         "validate": 14, "doc_validate": 8, "validate_custom": 12, "validate_keep": 3,
         "validate_rerun": 6, "validate_optional": 5, "save": 6, "load": 4,
         "restart": 4, "set_values": 3, "rename": 2, "lookalike_prop": 4, "damage_file": 3,
-        "set_link": 3, "set_repository": 3, "custom_again": 6,
+        "set_link": 3, "set_repository": 3, "custom_again": 6, "dependency_scenario": 8,
         # value edits that do not go through the values setter
         "v_append": 3, "v_extend": 2, "v_remove": 2, "v_insert": 1,
     }, fault_share=0.25, detached_share=0.25, save_only_backends=("rdf",)),
